@@ -1060,7 +1060,7 @@ func TestVerif_C14_Sequential(t *testing.T) {
 	defer r.Write(t)
 	for _, tx := range []bool{false, true} {
 		e := c14Boot(t, tx, false)
-		for c := 0; c < c14N(100, 600); c++ {
+		for c := 0; c < c14N(100, 250); c++ {
 			caseID := fmt.Sprintf("seq:%v:s%d:%d", tx, shard, c)
 			if !kit.WantCase(caseID) {
 				continue
@@ -1376,6 +1376,7 @@ func c14FaultCase(e *c14Env, r *kit.Result, sc c14FaultScen, i int, caseID strin
 	case "ok":
 		if fired > 0 {
 			r.Count("fault_swallowed_write_succeeded", 1)
+			r.Count("fault_swallowed_at:"+what, 1)
 		}
 		if !c14OutEq(exp, out) {
 			r.Violate("C14-seq-write-outcome", caseID, fmt.Sprintf("write with storage op %d (%s) failing answered %q, model says %q", i, what, out.String(), exp.String()), wit)
@@ -1775,7 +1776,7 @@ func TestVerif_C14_Gated(t *testing.T) {
 				if si%nshards != shard {
 					continue
 				}
-				ex := &kit.Explorer{MaxPreempt: 2, MaxRuns: c14N(20, 300)}
+				ex := &kit.Explorer{MaxPreempt: 2, MaxRuns: c14N(20, 150)}
 				stop := false
 				ex.Explore(func(pol kit.Policy) (kit.Schedule, bool) {
 					s, cont := c14RunScen(e, r, seed, sc, si, pol)
@@ -1794,7 +1795,7 @@ func TestVerif_C14_Gated(t *testing.T) {
 		// (a') the same scenarios under uniformly random schedules (the depth-first
 		// enumeration spends its run cap on late preemption points)
 		for si, sc := range scens {
-			for k := 0; k < c14N(12, 100); k++ {
+			for k := 0; k < c14N(12, 40); k++ {
 				caseID := fmt.Sprintf("rnd:%v:%d:s%d:%d", tx, si, shard, k)
 				if !kit.WantCase(caseID) {
 					continue
@@ -1807,7 +1808,7 @@ func TestVerif_C14_Gated(t *testing.T) {
 			}
 		}
 		// (b) PCT
-		for c := 0; c < c14N(50, 500); c++ {
+		for c := 0; c < c14N(50, 200); c++ {
 			caseID := fmt.Sprintf("pct:%v:s%d:%d", tx, shard, c)
 			if !kit.WantCase(caseID) {
 				continue
@@ -1868,7 +1869,7 @@ func TestVerif_C14_Free(t *testing.T) {
 	type flav struct{ tx, cache bool }
 	for fi, fl := range []flav{{false, false}, {true, false}, {false, true}} {
 		e := c14Boot(t, fl.tx, fl.cache)
-		for c := 0; c < c14N(90, 1000); c++ {
+		for c := 0; c < c14N(90, 400); c++ {
 			caseID := fmt.Sprintf("free:%d:s%d:%d", fi, shard, c)
 			if !kit.WantCase(caseID) {
 				continue
